@@ -30,7 +30,7 @@ func (r Result) String() string {
 type Stats struct {
 	Sat, Unsat, Unknown int64
 	Fallback            int64 // queries answered by a fallback solver
-	FallbackBy          [4]int64
+	FallbackBy          [8]int64
 	SolverNs            int64
 	Errors              int64
 	CrossChecked        int64
@@ -407,6 +407,7 @@ var fallbacks = []fb{
 	{"cvc5-bv-as-int", []string{"cvc5", "--lang=smt2", "--solve-bv-as-int=sum", "--produce-models"}},
 	{"cvc5", []string{"cvc5", "--lang=smt2", "--produce-models"}},
 	{"z3-new", []string{"z3-new", "-in"}},
+	{"z3-fresh", []string{"z3", "-in"}},
 }
 
 func FallbackNames() []string {
@@ -446,14 +447,17 @@ func (s *Session) fallback(extra *Term) (Result, map[string]uint64, int) {
 		dumpN++
 		os.WriteFile(fmt.Sprintf("%s/q-%d-%d.smt2", d, os.Getpid(), dumpN), []byte(script), 0o644)
 	}
-	for i, f := range fallbacks {
-		out, err := runOneShot(f.argv, script, FallbackTimeout)
-		if err != nil {
-			continue
-		}
-		r, m := parseOneShot(out, s.inputList())
-		if r != Unknown {
-			return r, m, i
+	// two rounds: every solver briefly, then every solver with the long timeout
+	for _, to := range []time.Duration{4 * time.Second, FallbackTimeout} {
+		for i, f := range fallbacks {
+			out, err := runOneShot(f.argv, script, to)
+			if err != nil {
+				continue
+			}
+			r, m := parseOneShot(out, s.inputList())
+			if r != Unknown {
+				return r, m, i
+			}
 		}
 	}
 	return Unknown, nil, 0
